@@ -3,6 +3,8 @@ package main
 // Server-side rules: C18-SOURCES, C20 (T10, C20-TREE, C20-ONCE), C09 (H-PRIMARY, T11, C12-PAIR).
 
 import (
+	"sort"
+	"go/constant"
 	"fmt"
 	"go/ast"
 	"go/token"
@@ -115,61 +117,96 @@ func ruleSeenOnce(c *Ctx) {
 		c.undecided("C18-ONCE", "analyzer.checkUndeclaredCommodities", "anchor", token.NoPos, "function not found")
 		return
 	}
-	info := c.P.InfoFor(fd)
+	F := c.P.ssaOf(fd)
+	if F == nil {
+		c.undecided("C18-ONCE", c.P.declName(fd), "anchor", token.NoPos, "no SSA form")
+		return
+	}
+	cg := cgView{c}
 	fname := c.P.declName(fd)
-	// find append of a Diagnostic: enclosing if-condition must test !seen[x] and !declared[x], and body sets seen[x] = true
+	fns := []*ssa.Function{F}
+	fns = append(fns, F.AnonFuncs...)
 	n := 0
-	ast.Inspect(fd.Body, func(x ast.Node) bool {
-		ifs, ok := x.(*ast.IfStmt)
-		if !ok {
-			return true
-		}
-		appends := false
-		for _, st := range ifs.Body.List {
-			if as, ok := st.(*ast.AssignStmt); ok && len(as.Rhs) == 1 {
-				if call, ok := as.Rhs[0].(*ast.CallExpr); ok && identOf(call.Fun).Name == "append" {
-					appends = true
+	for _, f := range fns {
+		for _, b := range f.Blocks {
+			for _, ins := range b.Instrs {
+				// emission site: a store into the Code field of an analyzer diagnostic under construction
+				st, ok := ins.(*ssa.Store)
+				if !ok {
+					continue
 				}
-			}
-		}
-		if !appends {
-			return true
-		}
-		n++
-		shape := condShape(c.P, info, ifs.Cond)
-		marks := false
-		for _, st := range ifs.Body.List {
-			if as, ok := st.(*ast.AssignStmt); ok && len(as.Lhs) == 1 {
-				if ix, ok := as.Lhs[0].(*ast.IndexExpr); ok {
-					if t := info.TypeOf(ix.X); t != nil {
-						if _, isMap := t.Underlying().(*types.Map); isMap && identOf(as.Rhs[0]).Name == "true" {
-							marks = true
+				fa, ok := st.Addr.(*ssa.FieldAddr)
+				if !ok || !typeHasSuffix(fa.X.Type(), "internal/analyzer.Diagnostic") {
+					continue
+				}
+				if fa.X.Type().Underlying().(*types.Pointer).Elem().Underlying().(*types.Struct).Field(fa.Field).Name() != "Code" {
+					continue
+				}
+				n++
+				// control dependence: neither in the declared set (a parameter of the check) nor in a set created once per call
+				var declKey, seenKey ssa.Value
+				var seenOrigins map[string]bool
+				for _, cc := range controlCondsPol(b) {
+					lk, ok := cc.Cond.(*ssa.Lookup)
+					if !ok || cc.Taken {
+						continue
+					}
+					or := map[string]bool{}
+					mapOrigins(cg, lk.X, 0, or)
+					isParam, madeOnce := false, false
+					for o := range or {
+						if strings.HasPrefix(o, "param:") {
+							isParam = true
+						}
+						if strings.HasPrefix(o, "make@") {
+							madeOnce = true
+						}
+					}
+					if isParam {
+						declKey = lk.Index
+					} else if madeOnce {
+						seenKey, seenOrigins = lk.Index, or
+					}
+				}
+				// the symbol is marked in the seen set on the way to the emission
+				marks := false
+				for _, g := range fns {
+					for _, b2 := range g.Blocks {
+						for _, i2 := range b2.Instrs {
+							mu, ok := i2.(*ssa.MapUpdate)
+							if !ok || seenKey == nil || stripConv(mu.Key) != stripConv(seenKey) {
+								continue
+							}
+							or := map[string]bool{}
+							mapOrigins(cg, mu.Map, 0, or)
+							for o := range or {
+								if seenOrigins[o] && (b2 == b || b2.Dominates(b) || b.Dominates(b2)) {
+									marks = true
+								}
+							}
 						}
 					}
 				}
+				okBoth := declKey != nil && seenKey != nil && stripConv(declKey) == stripConv(seenKey)
+				c.check(okBoth && marks, "C18-ONCE", fname, "one warning per undeclared symbol and transaction", st.Pos(),
+					"the warning is built only for symbols that are neither in the declared set nor in the per-call seen set, and the symbol is then marked",
+					fmt.Sprintf("the undeclared-commodity warning is not guarded by both the declared set and a per-transaction seen set (declared test: %v, seen test: %v, marks seen: %v)", declKey != nil, seenKey != nil, marks))
 			}
 		}
-		negIdx := strings.Count(shape, "!_[_]")
-		c.check(negIdx >= 2 && marks, "C18-ONCE", fname, "one warning per undeclared symbol and transaction", ifs.Pos(),
-			"the warning is emitted only for symbols that are neither declared nor already reported, and the symbol is then marked ("+shape+")",
-			"the undeclared-commodity warning is not guarded by both the declared set and a per-transaction seen set (guard: "+shape+"; marks seen: "+fmt.Sprint(marks)+")")
-		return true
-	})
+	}
 	c.census("C18-ONCE", "diagnostic emission sites in the undeclared-commodity check", n, 1)
 	// the seen set is created once per call (per transaction), outside any loop
 	okOnce := false
-	for _, st := range fd.Body.List {
-		if as, ok := st.(*ast.AssignStmt); ok && as.Tok == token.DEFINE && len(as.Rhs) == 1 {
-			if call, ok := as.Rhs[0].(*ast.CallExpr); ok && identOf(call.Fun).Name == "make" {
-				if t := info.TypeOf(as.Rhs[0]); t != nil {
-					if m, ok := t.Underlying().(*types.Map); ok && types.TypeString(m.Elem(), nil) == "bool" {
-						okOnce = true
-					}
+	for _, b := range F.Blocks {
+		for _, ins := range b.Instrs {
+			if mm, ok := ins.(*ssa.MakeMap); ok {
+				if m, ok := mm.Type().Underlying().(*types.Map); ok && types.TypeString(m.Elem(), nil) == "bool" && !inCycle(b) {
+					okOnce = true
 				}
 			}
 		}
 	}
-	c.check(okOnce, "C18-ONCE", fname, "seen set lives for the whole transaction", fd.Pos(), "the seen set is created once per checked transaction, outside the posting loop", "no per-transaction seen set is created at the top of the function")
+	c.check(okOnce, "C18-ONCE", fname, "seen set lives for the whole transaction", fd.Pos(), "the seen set is created once per checked transaction, outside the posting loop", "no per-transaction seen set is created outside the loops of the function")
 }
 
 // ---------- C20 ----------
@@ -490,131 +527,387 @@ func ruleC09(c *Ctx) {
 	ruleT11(c)
 }
 
-// ruleT11: the three find*References functions share one skeleton; dedup compares all components; rename is 1:1.
+// ruleT11 (SSA): every reference location carries the URI of the file it was found in; the collectors' results
+// pass the common sort+dedup step, whose equality covers file and range; rename maps references 1:1 to edits.
 func ruleT11(c *Ctx) {
-	pk := c.P.ByRel["internal/server"]
-	info := pk.TypesInfo
-	n := 0
-	for _, f := range pk.Syntax {
-		for _, d := range f.Decls {
-			fd, ok := d.(*ast.FuncDecl)
-			if !ok || fd.Body == nil || fd.Recv != nil || fd.Type.Results == nil || len(fd.Type.Results.List) != 1 {
-				continue
-			}
-			if types.TypeString(info.TypeOf(fd.Type.Results.List[0].Type), nil) != "[]go.lsp.dev/protocol.Location" {
-				continue
-			}
-			// reference collectors: build Location literals
-			builds := false
-			ast.Inspect(fd.Body, func(x ast.Node) bool {
-				if cl, ok := x.(*ast.CompositeLit); ok && typeHasSuffix(info.TypeOf(cl), "protocol.Location") {
-					builds = true
-				}
-				return true
-			})
-			if !builds {
-				continue
-			}
-			n++
-			fname := c.P.declName(fd)
-			// (1) iterates sorted paths; (2) URI of every location is pathToURI(<loop path>); (3) returns sortAndDedup(...)
-			var loopVar types.Object
-			sorted := false
-			ast.Inspect(fd.Body, func(x ast.Node) bool {
-				if rs, ok := x.(*ast.RangeStmt); ok && loopVar == nil {
-					if call, ok := ast.Unparen(rs.X).(*ast.CallExpr); ok {
-						if o := calleeOf(info, call); o != nil && strings.Contains(strings.ToLower(o.Name()), "sorted") {
-							sorted = true
-							if id, ok := rs.Value.(*ast.Ident); ok {
-								loopVar = info.Defs[id]
-							}
+	spk := c.P.SSAPkg("internal/server")
+	cg := cgView{c}
+	isLocSlice := func(t types.Type) bool { return types.TypeString(t, nil) == "[]go.lsp.dev/protocol.Location" }
+	// ---- location constructions
+	type locInst struct {
+		fn   *ssa.Function // function the values live in (the caller, for a constructor helper)
+		site ssa.CallInstruction
+		uri  ssa.Value
+		rng  ssa.Value
+		pos  token.Pos
+	}
+	var insts []locInst
+	for _, f := range c.P.ModuleFuncs() {
+		top := f
+		for top.Parent() != nil {
+			top = top.Parent()
+		}
+		if top.Pkg != spk {
+			continue
+		}
+		for _, b := range f.Blocks {
+			for _, ins := range b.Instrs {
+				var root ssa.Value
+				switch x := ins.(type) {
+				case *ssa.Alloc:
+					if typeHasSuffix(x.Type(), "*go.lsp.dev/protocol.Location") {
+						root = x
+					}
+				case *ssa.IndexAddr:
+					if typeHasSuffix(x.Type(), "*go.lsp.dev/protocol.Location") {
+						if _, local := x.X.(*ssa.Alloc); local {
+							root = x
 						}
 					}
 				}
-				return true
-			})
-			c.check(sorted && loopVar != nil, "T11", fname, "walks files in sorted path order", fd.Pos(), "locations are collected per file in sorted path order", "reference collector does not iterate the journals in sorted path order")
-			uriOK, nLoc := true, 0
-			ast.Inspect(fd.Body, func(x ast.Node) bool {
-				cl, ok := x.(*ast.CompositeLit)
-				if !ok || !typeHasSuffix(info.TypeOf(cl), "protocol.Location") {
-					return true
+				if root == nil {
+					continue
 				}
-				nLoc++
-				found := false
-				for _, el := range cl.Elts {
-					if kv, ok := el.(*ast.KeyValueExpr); ok && identOf(kv.Key).Name == "URI" {
-						if call, ok := ast.Unparen(kv.Value).(*ast.CallExpr); ok && len(call.Args) == 1 {
-							if id, ok := ast.Unparen(call.Args[0]).(*ast.Ident); ok && info.Uses[id] == loopVar {
-								found = true
-							}
+				st := map[string][]ssa.Value{}
+				collectFieldStores(root, "", st, 0)
+				if len(st[".URI"]) != 1 {
+					continue
+				}
+				var rng ssa.Value
+				for k, v := range st {
+					if strings.HasPrefix(k, ".Range") && len(v) > 0 {
+						rng = v[0]
+					}
+				}
+				if rng == nil {
+					continue
+				}
+				// a constructor helper (URI / range from parameters): one instance per call site
+				usesParam := false
+				for _, v := range []ssa.Value{st[".URI"][0], rng} {
+					for w := range backSlice(v) {
+						if p, ok := w.(*ssa.Parameter); ok && p.Parent() == f {
+							usesParam = true
 						}
 					}
 				}
-				if !found {
-					uriOK = false
-				}
-				return true
-			})
-			c.check(uriOK && nLoc > 0, "T11", fname, "each location carries the URI of the file it was found in", fd.Pos(),
-				fmt.Sprintf("%d location literals, all with URI = pathToURI(path of the journal being walked)", nLoc), "a location is built with a URI that is not derived from the path of the journal being walked")
-			dedup := false
-			ast.Inspect(fd.Body, func(x ast.Node) bool {
-				if r, ok := x.(*ast.ReturnStmt); ok && len(r.Results) == 1 {
-					if call, ok := ast.Unparen(r.Results[0]).(*ast.CallExpr); ok {
-						if o := calleeOf(info, call); o != nil && strings.Contains(strings.ToLower(o.Name()), "dedup") {
-							dedup = true
-						}
+				sites := cg.callersOf(f)
+				if usesParam && len(sites) > 0 && !isLocSlice(resultOrNil(f)) {
+					for _, s := range sites {
+						insts = append(insts, locInst{s.Parent(), s, st[".URI"][0], rng, s.Pos()})
 					}
+					continue
 				}
-				return true
-			})
-			c.check(dedup, "T11", fname, "result is sorted and de-duplicated", fd.Pos(), "returns sortAndDedup(locations)", "reference collector returns its locations without the common sort+dedup step")
+				insts = append(insts, locInst{f, nil, st[".URI"][0], rng, root.Pos()})
+			}
 		}
 	}
-	c.census("T11", "reference collectors", n, 3)
-	// dedup equality compares the file and all four coordinates
-	if fd := c.P.FindDecl("internal/server", func(fd *ast.FuncDecl, info *types.Info) bool {
-		pt, rt := paramTypes(fd, info), resultTypes(fd, info)
-		return fd.Recv == nil && len(pt) == 2 && strings.HasSuffix(pt[0], "protocol.Location") && strings.HasSuffix(pt[1], "protocol.Location") && len(rt) == 1 && rt[0] == "bool"
-	}); fd != nil {
-		txt := fullStr(c.P.Fset, fd.Body)
-		full := strings.Count(txt, "URI") >= 2
-		coords := 0
-		for _, s := range []string{"Start.Line", "Start.Character", "End.Line", "End.Character"} {
-			if strings.Count(txt, s) >= 2 {
-				coords++
+	// de-duplicate copies (literal built in a local, then copied into the append argument)
+	{
+		seen := map[string]bool{}
+		var u []locInst
+		for _, in := range insts {
+			k := fmt.Sprintf("%p|%p|%p", in.uri, in.rng, in.site)
+			if !seen[k] {
+				seen[k] = true
+				u = append(u, in)
 			}
 		}
-		// whole-struct comparisons are fine too
-		if strings.Contains(txt, "a == b") || (strings.Contains(txt, "a.URI == b.URI") && strings.Contains(txt, "a.Range == b.Range")) {
-			full, coords = true, 4
+		insts = u
+	}
+	sort.SliceStable(insts, func(i, j int) bool { return insts[i].pos < insts[j].pos })
+	sliceBound := func(in locInst, v ssa.Value) map[ssa.Value]bool {
+		sl := backSlice(v)
+		if in.site == nil {
+			return sl
 		}
-		c.check(full && coords == 4, "T11", c.P.declName(fd), "dedup equality covers file and range", fd.Pos(),
-			"two locations are equal only if URI and all four coordinates agree", "the equality used to drop duplicate locations ignores part of the location (URI or a coordinate): occurrences at the same range in different files collapse into one")
+		cal := in.site.Common().StaticCallee()
+		for w := range sl {
+			if p, ok := w.(*ssa.Parameter); ok && cal != nil && p.Parent() == cal {
+				for i, q := range cal.Params {
+					if q == p && i < len(in.site.Common().Args) {
+						for z := range backSlice(in.site.Common().Args[i]) {
+							sl[z] = true
+						}
+					}
+				}
+			}
+		}
+		return sl
+	}
+	nColl := 0
+	collectors := map[*ssa.Function]bool{}
+	for i, in := range insts {
+		// only locations built while walking a set of journals keyed by path
+		rs := sliceBound(in, in.rng)
+		var keys []ssa.Value
+		for w := range rs {
+			switch x := w.(type) {
+			case *ssa.Lookup:
+				if mt, ok := x.X.Type().Underlying().(*types.Map); ok && typeHasSuffix(mt.Elem(), "ast.Journal") {
+					keys = append(keys, stripConv(x.Index))
+				}
+			case *ssa.Extract:
+				if nx, ok := x.Tuple.(*ssa.Next); ok && x.Index == 2 {
+					if rg, ok := nx.Iter.(*ssa.Range); ok {
+						if mt, ok := rg.X.Type().Underlying().(*types.Map); ok && typeHasSuffix(mt.Elem(), "ast.Journal") {
+							// the key of the same iteration step
+							for _, r := range *nx.Referrers() {
+								if e2, ok := r.(*ssa.Extract); ok && e2.Index == 1 {
+									keys = append(keys, e2)
+								}
+							}
+						}
+					}
+				}
+			}
+		}
+		if len(keys) == 0 {
+			continue
+		}
+		nColl++
+		collectors[in.fn] = true
+		us := sliceBound(in, in.uri)
+		okURI := false
+		for _, k := range keys {
+			if us[k] {
+				okURI = true
+			}
+		}
+		desc := "each location carries the URI of the file it was found in"
+		if i > 0 {
+			desc = fmt.Sprintf("%s #%d", desc, i+1)
+		}
+		c.check(okURI, "T11", funcName(in.fn), desc, in.pos,
+			"the location's URI is computed from the path under which the journal that contains the range is stored", "a location is built with a URI that is not derived from the path of the journal being walked")
+	}
+	c.census("T11", "reference locations built while walking the journals of the include tree", nColl, 3)
+	// ---- the sort+dedup step
+	var dedupFn *ssa.Function
+	for _, f := range c.P.ModuleFuncs() {
+		if f.Pkg == spk && f.Signature.Recv() == nil && f.Signature.Params().Len() == 1 && isLocSlice(f.Signature.Params().At(0).Type()) && isLocSlice(resultOrNil(f)) {
+			dedupFn = f
+		}
+	}
+	if dedupFn == nil {
+		c.undecided("T11", "server", "sort+dedup step", token.NoPos, "no function ([]Location) []Location found")
 	} else {
-		// role: look inside sortAndDedup for a direct comparison
-		c.undecided("T11", "server.locationsEqual", "anchor", token.NoPos, "location equality function not found")
-	}
-	// rename: one TextEdit per reference location, same range, keyed by the location's URI
-	if fd := c.P.handlerByParam("protocol.RenameParams"); fd != nil {
-		ok1 := false
-		ast.Inspect(fd.Body, func(x ast.Node) bool {
-			rs, ok := x.(*ast.RangeStmt)
+		var fs []*ssa.Function
+		for f := range collectors {
+			fs = append(fs, f)
+		}
+		sort.Slice(fs, func(i, j int) bool { return funcName(fs[i]) < funcName(fs[j]) })
+		for _, f := range fs {
+			if !isLocSlice(resultOrNil(f)) {
+				continue
+			}
+			all := true
+			nRet := 0
+			for _, b := range f.Blocks {
+				for _, ins := range b.Instrs {
+					if r, ok := ins.(*ssa.Return); ok && len(r.Results) == 1 {
+						nRet++
+						if k, isConst := r.Results[0].(*ssa.Const); isConst && k.IsNil() {
+							continue
+						}
+						if !sliceHasCall(backSlice(r.Results[0]), func(cal *ssa.Function, _ *ssa.Call) bool { return cal == dedupFn }) {
+							all = false
+						}
+					}
+				}
+			}
+			c.check(all && nRet > 0, "T11", funcName(f), "result is sorted and de-duplicated", f.Pos(), "every returned list passes "+dedupFn.Name(), "reference collector returns its locations without the common sort+dedup step")
+		}
+		// equality used to drop duplicates: which components of two locations are compared
+		covered := map[string]bool{}
+		var eqFns []*ssa.Function
+		// the body of the step itself and the boolean helpers it calls; the comparator closure handed to the
+		// sort orders the list and is not the equality
+		eqFns = append(eqFns, dedupFn)
+		for _, b := range dedupFn.Blocks {
+			for _, ins := range b.Instrs {
+				if call, ok := ins.(ssa.CallInstruction); ok {
+					if cal := call.Common().StaticCallee(); cal != nil && inModule(cal) && cal.Blocks != nil && types.TypeString(resultOrNil(cal), nil) == "bool" {
+						eqFns = append(eqFns, cal)
+					}
+				}
+			}
+		}
+		for _, f := range eqFns {
+			for _, b := range f.Blocks {
+				for _, ins := range b.Instrs {
+					bo, ok := ins.(*ssa.BinOp)
+					if !ok || (bo.Op != token.EQL && bo.Op != token.NEQ) {
+						continue
+					}
+					px, okx := locPath(stripConv(bo.X))
+					py, oky := locPath(stripConv(bo.Y))
+					if okx && oky && px == py {
+						covered[px] = true
+					}
+				}
+			}
+		}
+		need := []string{"URI", "Range.Start.Line", "Range.Start.Character", "Range.End.Line", "Range.End.Character"}
+		var missing []string
+		for _, n := range need {
+			ok := covered[""] || covered[n]
+			for p := range covered {
+				if p != "" && strings.HasPrefix(n, p+".") {
+					ok = true
+				}
+			}
 			if !ok {
-				return true
+				missing = append(missing, n)
 			}
-			txt := fullStr(c.P.Fset, rs.Body)
-			if strings.Contains(txt, "[loc.URI] = append(") && strings.Contains(txt, "Range: loc.Range") && strings.Contains(txt, "NewText: params.NewName") {
-				ok1 = true
-			}
-			return true
-		})
-		incl := strings.Contains(fullStr(c.P.Fset, fd.Body), ", true)")
-		c.check(ok1 && incl, "T11", c.P.declName(fd), "rename edits are a 1:1 map of the references (declarations included)", fd.Pos(),
-			"one edit per location with the location's own range, grouped by the location's URI", "rename does not turn every reference location (with declarations) into exactly one edit at that location")
-	} else {
+		}
+		c.check(len(missing) == 0, "T11", funcName(dedupFn), "dedup equality covers file and range", dedupFn.Pos(),
+			"two locations are equal only if URI and all four coordinates agree", "the equality used to drop duplicate locations ignores part of the location ("+strings.Join(missing, ", ")+"): occurrences at the same range in different files collapse into one")
+	}
+	// ---- rename: one TextEdit per reference location, with the location's own range, under the location's URI
+	fd := c.P.handlerByParam("protocol.RenameParams")
+	var rn *ssa.Function
+	if fd != nil {
+		rn = c.P.ssaOf(fd)
+	}
+	if rn == nil {
 		c.undecided("T11", "server.Server.Rename", "anchor", token.NoPos, "rename handler not found")
+		return
+	}
+	ok1, incl := false, false
+	fns := append([]*ssa.Function{rn}, rn.AnonFuncs...)
+	for _, f := range fns {
+		for _, b := range f.Blocks {
+			for _, ins := range b.Instrs {
+				mu, ok := ins.(*ssa.MapUpdate)
+				if !ok {
+					continue
+				}
+				mt, ok := mu.Map.Type().Underlying().(*types.Map)
+				if !ok || !typeHasSuffix(mt.Elem(), "protocol.TextEdit") {
+					continue
+				}
+				// key = <loc>.URI; the appended edit's range = <same loc>.Range; text = the new name from the request
+				kp, kok := locPath(stripConv(mu.Key))
+				if !kok || kp != "URI" {
+					continue
+				}
+				keyBase := locBase(stripConv(mu.Key))
+				rangeOK, textOK := false, false
+				for v := range backSlice(mu.Value) {
+					if p, ok := locPath(v); ok && p == "Range" && locBase(v) == keyBase {
+						rangeOK = true
+					}
+					switch x := v.(type) {
+					case *ssa.FieldAddr:
+						if typeHasSuffix(x.X.Type(), "protocol.RenameParams") && types.TypeString(x.Type().Underlying().(*types.Pointer).Elem(), nil) == "string" {
+							textOK = true
+						}
+					case *ssa.Field:
+						if typeHasSuffix(x.X.Type(), "protocol.RenameParams") && types.TypeString(x.Type(), nil) == "string" {
+							textOK = true
+						}
+					}
+				}
+				if rangeOK && textOK {
+					ok1 = true
+				}
+				// the locations come from a collector asked to include declarations
+				for v := range backSlice(mu.Key) {
+					if call, ok := v.(*ssa.Call); ok && isLocSlice(call.Type()) {
+						for _, a := range call.Common().Args {
+							if k, ok := a.(*ssa.Const); ok && k.Value != nil && k.Value.Kind() == constant.Bool && constant.BoolVal(k.Value) {
+								incl = true
+							}
+						}
+					}
+				}
+			}
+		}
+	}
+	c.check(ok1 && incl, "T11", c.P.declName(fd), "rename edits are a 1:1 map of the references (declarations included)", fd.Pos(),
+		"one edit per location with the location's own range, grouped by the location's URI", "rename does not turn every reference location (with declarations) into exactly one edit at that location")
+}
+
+// locPath: v is (a component of) a protocol.Location value: "" for the whole location, "URI", "Range.Start.Line", ...
+func locPath(v ssa.Value) (string, bool) {
+	var parts []string
+	for {
+		switch x := v.(type) {
+		case *ssa.Field:
+			st := x.X.Type().Underlying().(*types.Struct)
+			parts = append([]string{st.Field(x.Field).Name()}, parts...)
+			if typeHasSuffix(x.X.Type(), "protocol.Location") {
+				return strings.Join(parts, "."), true
+			}
+			v = x.X
+			continue
+		case *ssa.UnOp:
+			if x.Op == token.MUL {
+				a := x.X
+				var p2 []string
+				for {
+					fa, ok := a.(*ssa.FieldAddr)
+					if !ok {
+						break
+					}
+					bt := fa.X.Type().Underlying().(*types.Pointer).Elem()
+					p2 = append([]string{bt.Underlying().(*types.Struct).Field(fa.Field).Name()}, p2...)
+					if typeHasSuffix(bt, "protocol.Location") {
+						return strings.Join(append(p2, parts...), "."), true
+					}
+					a = fa.X
+				}
+				if typeHasSuffix(x.Type(), "protocol.Location") && len(parts) == 0 {
+					return "", true
+				}
+			}
+		case *ssa.Parameter:
+			if typeHasSuffix(x.Type(), "protocol.Location") && len(parts) == 0 {
+				return "", true
+			}
+		}
+		if typeHasSuffix(v.Type(), "protocol.Location") {
+			return strings.Join(parts, "."), true
+		}
+		return "", false
+	}
+}
+
+func resultOrNil(f *ssa.Function) types.Type {
+	if f.Signature.Results().Len() != 1 {
+		return types.Typ[types.Invalid]
+	}
+	return f.Signature.Results().At(0).Type()
+}
+
+// locBase: the Location value (or address) a field access is rooted at.
+func locBase(v ssa.Value) ssa.Value {
+	for {
+		switch x := v.(type) {
+		case *ssa.Field:
+			if typeHasSuffix(x.X.Type(), "protocol.Location") {
+				return x.X
+			}
+			v = x.X
+		case *ssa.UnOp:
+			if x.Op != token.MUL {
+				return v
+			}
+			a := x.X
+			for {
+				fa, ok := a.(*ssa.FieldAddr)
+				if !ok {
+					return a
+				}
+				if typeHasSuffix(fa.X.Type().Underlying().(*types.Pointer).Elem(), "protocol.Location") {
+					return fa.X
+				}
+				a = fa.X
+			}
+		default:
+			return v
+		}
 	}
 }
 
